@@ -31,6 +31,10 @@ structure RawTok (s : LexerState) (st : LexState) (t : Token) (st1 : LexState) :
   lexpos : st1.lexpos = t.lexpos + t.value.length
   auto : t.auto = false
   rule : ∃ r, FirstMatch (rulesOf s) (st.text.drop t.lexpos) r t.value.length ∧ t.type = ruleType r t.value
+  lineno : t.lineno = st.lineno
+  colno : colnoAt st t.lexpos = .ok t.colno
+  nl : st1.newlineIdx = st.newlineIdx ++ nlOffsets t.value t.lexpos ∧
+       st1.lineno = st.lineno + (nlOffsets t.value t.lexpos).length
 
 theorem updateNewlineIdx_frame (st : LexState) (p : Nat) (v : List Char) :
     Frame st (updateNewlineIdx st p v) ∧ (updateNewlineIdx st p v).lexpos = st.lexpos := by
@@ -64,6 +68,9 @@ theorem getLexerToken_some (s : LexerState) (st : LexState) (t : Token) (st1 : L
       · refine ⟨r, ?_, ?_⟩
         · simp only; rw [hlen]; exact hfm
         · exact hty
+      · rfl
+      · assumption
+      · simp [updateNewlineIdx]
 
 theorem getLexerToken_none (s : LexerState) (st st1 : LexState)
     (h : getLexerToken s st = .ok (none, st1)) :
@@ -81,7 +88,8 @@ theorem getLexerToken_none (s : LexerState) (st st1 : LexState)
 
 theorem setTokens_spec (st : LexState) (tok : Option Token) (st2 : LexState)
     (h : setTokens st tok = .ok st2) :
-    Frame st st2 ∧ st2.lexpos = st.lexpos ∧ st2.curToken = tok := by
+    Frame st st2 ∧ (st2.lexpos = st.lexpos ∧ st2.lineno = st.lineno ∧ st2.newlineIdx = st.newlineIdx) ∧
+    st2.curToken = tok := by
   unfold setTokens at h
   split at h
   · simp at h
@@ -133,7 +141,8 @@ def RawStep (st : LexState) (r : Option Token) (st' : LexState) : Prop :=
   Frame st st' ∧
   match r with
   | none => ∃ s, AllIgnored s (st.text.drop st.lexpos)
-  | some t => ∃ s raw st1, RawTok s st raw st1 ∧ st'.lexpos = st1.lexpos ∧
+  | some t => ∃ s raw st1, RawTok s st raw st1 ∧
+      (st'.lexpos = st1.lexpos ∧ st'.lineno = st1.lineno ∧ st'.newlineIdx = st1.newlineIdx) ∧
       (t = raw ∨ (t.auto = true ∧ t.type = "AUTOSEMI" ∧ t.value = [';'] ∧ t.lexpos = raw.lexpos ∧
                   raw.type = "LINE_TERMINATOR" ∧ s = .initial))
 
